@@ -161,7 +161,12 @@ def hostile_freq(rng, positive=True):
 
 def hostile_time():
     return [("float", 59867.2442234), ("array_time", Time([59000.0, 59001.0], format="mjd")), ("quantity", 3 * u.s),
-            ("garbage_str", "not a time"), ("int", 5), ("list", [1, 2])]
+            ("garbage_str", "not a time"), ("int", 5), ("list", [1, 2]),
+            # arrays of times already in the library's own normal form (isot, 9 digits), also with a single element, 2-D, empty
+            ("array_isot9", Time(["2021-03-04T05:06:07", "2021-03-04T05:06:08"], format="isot", precision=9)),
+            ("array1_isot9", Time(["2021-03-04T05:06:07"], format="isot", precision=9)),
+            ("array2d_isot9", Time([["2021-03-04T05:06:07"]], format="isot", precision=9)),
+            ("array1_mjd", Time([59000.0], format="mjd"))]
 
 
 def hostile_enum(valid):
@@ -417,10 +422,41 @@ def wl_meta_kinds(ctx, idx, rng):
     ctx.bucket("meta_kind", clsname, kname, how)
 
 
+class GainSignal(pb.Signal):
+    """A user subclass whose extra attributes are ordinary (positional-or-keyword) constructor parameters with defaults."""
+
+    def __init__(self, z, /, gain=1.0, label="none", *, sample_rate, start_time=None, meta=None):
+        super().__init__(z, sample_rate=sample_rate, start_time=start_time, meta=meta)
+        self._gain, self._label = gain, label
+
+    @property
+    def gain(self):
+        return self._gain
+
+    @property
+    def label(self):
+        return self._label
+
+
 def wl_copies(ctx, idx, rng):
     clsname = gen.CLASS_NAMES[idx % 6]
     use_dask = (idx // 6) % 3 == 1
     sig, desc = gen.make_signal(rng, clsname, int(rng.integers(0, 9)), dask=use_dask)
+    if clsname == "Signal" and gen._side_rng(rng).random() < 0.5:
+        with probes.quiet():
+            sig = GainSignal.like(sig, gain=2.5, label="cal")
+        desc["user_subclass"] = True
+        # every copy / derived signal of a user subclass keeps the subclass's own attributes
+        for lab, mk in (("like", lambda: GainSignal.like(sig)), ("slice", lambda: sig[0:1]), ("to_dask_array", sig.to_dask_array),
+                        ("compute", sig.compute), ("ufunc", lambda: sig * 2), ("pickle", lambda: pickle.loads(pickle.dumps(sig))),
+                        ("deepcopy", lambda: copy.deepcopy(sig))):
+            r_, e_ = ctx.call("faithful_copy", mk, where=f"GainSignal {lab}")
+            if e_ is None:
+                ctx.count("oracle[user_subclass_attrs]")
+                if type(r_) is not GainSignal or (r_.gain, r_.label) != (2.5, "cal"):
+                    ctx.violation("faithful_copy", f"{lab} of a user subclass instance: class {type(r_).__name__}, gain/label "
+                                                   f"{(getattr(r_, 'gain', None), getattr(r_, 'label', None))!r}, expected (2.5, 'cal')", None,
+                                  {"what": "subclass_attrs", "via": lab})
     cls = type(sig)
     ctx.describe_case(desc)
     # like() same class
